@@ -372,10 +372,13 @@ def run(ctx):
     binary = c15.build_test_binary(ctx, race=race)
     env = {'GORACE': 'halt_on_error=0'} if race else None
     rng = ctx.rng
+    # the cache is the state shared by the handler and the lint workers: cache-level histories (value semantics of what
+    # is handed in / out, concurrent operations, under the race detector in the thorough tier), beside the sequences
+    cache = c15.CacheCheck(ctx, race=race).start()
     if ctx.replay:
         rp = json.load(open(ctx.replay))
         seqs = [dict(rp['case'], id=0)] if 'case' in rp else []
-        batches = [seqs]
+        batches = [seqs] if seqs else []
     else:
         seqs = corpus_seqs()
         n = 64 if quick else 240
@@ -453,6 +456,7 @@ def run(ctx):
         if rc != 0:
             raise RuntimeError('C17 case evaluation failed:\n' + out[-3000:])
         r1 = vlib.parse_nat_list(out, 'R1') or []
+    cache_ev = cache.finish() or {}
     if r1 and not ctx.violations:
         c = all_cases[r1[0]]
         vlib.violation(ctx, {'kind': 'correspondence', 'relation': 'Check.C17Check.agrees_guards Current (Model/LspGuards.v)',
@@ -479,6 +483,7 @@ def run(ctx):
         'race_detector_note': 'thorough tier builds the test binary with -race; the quick tier does not (build + run are several times slower)',
         'samples': [{'client': s.get('client'), 'methods': [m.get('method') or m.get('watch') for m in s['msgs']][:12]} for s in seqs[:3]],
         'exhaustive': False,
+        **cache_ev,
     })
     return vlib.finish(ctx, 'other', cov, [
         'the fsnotify layer of the config watcher is replaced by the harness (events injected into configWatcher.Reload/Drop)',
@@ -486,4 +491,6 @@ def run(ctx):
         'a request counts as answered when a result or a JSON-RPC error arrives within 600 s (1200 s under -race)',
         'idle = handler barrier, every worker drained by sentinel jobs, no job in progress and no log line for 2 s',
         'facts about cache state and fixer results are not observed: the skeleton comparison tries both values',
+        'shared cache: values handed in / out are checked never to be written through on sampled sequential histories; concurrent cache '
+        'histories are sampled (race detector in the thorough tier only); cache_values_never_written_through ties the access shape to the source',
     ])
